@@ -53,6 +53,13 @@ CHECKS = {
  "C20": ("exploration", "property-based testing over generated schema sets with exhaustive permutation enumeration and repeated runs; reference resolvability predicate and cross-ordering equality/codec oracles",
          "Generated sets of mutually referencing named schemas are parsed under every permutation, several times each (fresh hash seed per call): outcome must equal the reference predicate, results must be identical across orderings and runs, and values must cross orderings.",
          "The reference predicate comes from the harness's own schema reader; the hash-seed dependent known defect is excluded from the main campaign by construction.", "DESIGN.md §4 C20"),
+
+ "C08": ("exploration", "property-based differential testing against an independent implementation of the specification's schema-resolution rules (set-valued for reader unions) over generated writer/reader pairs built from evolution steps",
+         "Generated (W, R, value) triples through three library routes (datum reader with reader schema, decode + Value::resolve, container reader with reader schema): routes agree, results are among the prescribed values, validate against R, resolve to themselves, errors only where the rules allow.",
+         "refresolve implements the rules; cases where its alternative list is truncated or a default cannot be interpreted only check route agreement; the pervasive value-driven leniency is one known finding family (C08/lenient/*).", "DESIGN.md §4 C08"),
+ "C09": ("exploration", "bounded-exhaustive enumeration of all ordered pairs of a 35-schema alphabet plus property-based pairs from the evolution generator; soundness-by-reading, safe-step, reflexivity, symmetry and determinism oracles",
+         "Verdict Full implies that sampled edge-biased values written with W read with R; pairs built from always-safe steps are never reported incompatible; every schema is compatible with itself; mutual_read is symmetric; verdicts are repeatable and address-independent.",
+         "Soundness is sampled with 5-8 values per pair; failures are attributed to root-cause classes by causal re-tests.", "DESIGN.md §4 C09"),
 }
 NOT_YET = {}
 
